@@ -6,4 +6,7 @@ def initialTasksChecked : Bool := true
 def storeOnlyTopLevelWithID : Bool := true
 /-- the in-loop interrupt-before check is applied to the result of every `calculateNextTasks` of the loop -/
 def loopTasksChecked : Bool := true
+/-- a resumed run's ctx keeps the checkpoint, so that nested graphs are re-entered from a stale checkpoint
+    (C05's fact; the nested clause of before_honoured rests on its being false) -/
+def createTasksForwardsStaleCP : Bool := false
 end EinoV.Expected.C06
